@@ -129,6 +129,33 @@ type drv struct {
 	ended   map[int64]bool
 	updSeq  int64
 	byGoU   map[int64]int64 // goroutine -> management call it is making
+	model   int64           // the pool's execution model as the session's management steps left it (atomic)
+	storm   int64           // > 0 while the model is being changed concurrently with requests
+}
+
+// what the execution model of a request promises about the order in which its rule bodies start
+func (d *drv) orderOf(method, via string) string {
+	m := 0
+	switch method {
+	case "Execute", "ExecuteWithStopTagDirect", "ExecuteSelectedRules", "ExecuteSelectedRulesWithControl",
+		"ExecuteSelectedRulesWithControlAndStopTag":
+		m = 1
+	case "ExecuteMixModel", "ExecuteMixModelWithStopTagDirect", "ExecuteSelectedRulesMixModel":
+		m = 3
+	}
+	if via == "em" || strings.HasPrefix(via, "emMulti") || strings.HasPrefix(via, "emSelected") {
+		if atomic.LoadInt64(&d.storm) > 0 {
+			return "none"
+		}
+		m = int(atomic.LoadInt64(&d.model))
+	}
+	switch m {
+	case 1:
+		return "sort"
+	case 3:
+		return "head"
+	}
+	return "none"
 }
 
 var D atomic.Value // *drv of the running session; the hook is installed once and dispatches through it
@@ -373,7 +400,8 @@ func (d *drv) request(r *Req, cv bool) {
 		tn = []string{"*"}
 	}
 	fl := r.Fail != "" || d.expectPeekFail(r)
-	d.o.Emit(obs.Event{"ev": "arrive", "q": r.Q, "keys": keys, "names": tn, "fail": fl, "failmay": !fl && d.apiKeyMayBeGone(r)})
+	d.o.Emit(obs.Event{"ev": "arrive", "q": r.Q, "keys": keys, "names": tn, "fail": fl, "failmay": !fl && d.apiKeyMayBeGone(r),
+		"ord": d.orderOf(r.Method, r.Via)})
 	data := map[string]interface{}{"req": &Obj{Id: r.Q}}
 	for _, k := range r.Keys {
 		data[k] = &Obj{Id: r.Q}
@@ -676,6 +704,7 @@ func runSession(s *Session, quiet time.Duration, seed int64) ([]obs.Event, bool)
 		os.Exit(2)
 	}
 	d.pool = p
+	atomic.StoreInt64(&d.model, int64(s.Model))
 	rules := s.Rules
 	if s.Kind == "isolation" || s.Kind == "capacity" {
 		rules = []RuleV{{"own", 1}, {"pa", 2}, {"pb", 3}, {"pc", 4}, {"pd", 5}}
@@ -723,6 +752,9 @@ func runSession(s *Session, quiet time.Duration, seed int64) ([]obs.Event, bool)
 				d.gatePub = false
 			case "setmodel":
 				e := p.SetExecModel(st.M)
+				if e == nil {
+					atomic.StoreInt64(&d.model, int64(st.M))
+				}
 				o.Emit(obs.Event{"ev": "setmodel", "m": st.M, "ok": e == nil})
 			case "query":
 				d.queries(st.Args)
